@@ -11,6 +11,7 @@ import (
 	"go/types"
 	"math/big"
 	"sort"
+	"strconv"
 	"strings"
 
 	"golang.org/x/tools/go/ssa"
@@ -62,6 +63,7 @@ type Ctx struct {
 	cellTypes map[string]types.Type
 	writeLog  []writeRec
 	inQuant   int
+	nanSyms   []string
 }
 
 type writeRec struct {
@@ -113,7 +115,20 @@ func (c *Ctx) def(prefix string, t T) T {
 	}
 	n := c.fresh(prefix, t.K)
 	c.emit(fmt.Sprintf("(assert (= %s %s))", n.S, t.S))
+	if c.isNaN(t) {
+		c.nanSyms = append(c.nanSyms, n.S)
+	}
 	return n
+}
+
+// isNaN: in a NaN-mode verification, does the term depend on a NaN parameter?
+func (c *Ctx) isNaN(t T) bool {
+	for _, s := range c.nanSyms {
+		if strings.Contains(t.S, s) {
+			return true
+		}
+	}
+	return false
 }
 
 func (c *Ctx) assume(reach, fact T) {
@@ -159,6 +174,9 @@ func (c *Ctx) oblige(st *State, kind, label string, props []string, goal T, pos 
 		// trivially discharged, still counted
 	}
 	fn := c.top.String()
+	if c.fc != nil && c.fc.Variant != "" {
+		fn += "#" + c.fc.Variant
+	}
 	base := fn + "/" + kind
 	if label != "" {
 		base += "/" + label
@@ -200,7 +218,7 @@ type Frame struct {
 	inLoop map[*ssa.BasicBlock]*loopInfo // innermost loop of each block
 	edges  map[[2]int]*State             // state carried by edge (from,to)
 	rets   []retInfo
-	names  map[string][]ssa.Value // source variable name -> SSA values carrying it
+	names  map[string][]nameBinding // source variable name -> bindings
 	old    *State
 	env0   map[string]Val // logical names of the contract (params, ghosts)
 	ord    []*ssa.BasicBlock
@@ -416,37 +434,44 @@ func (fr *Frame) order() []*ssa.BasicBlock {
 	return post
 }
 
-// collect source-name -> SSA values map from DebugRefs and phi comments
+// nameBinding: from location (blk, idx) on, source variable `name` holds val.
+type nameBinding struct {
+	val   ssa.Value
+	blk   *ssa.BasicBlock
+	idx   int
+	isPhi bool
+}
+
+// collect source-name -> bindings from DebugRefs, phi comments, parameters
 func (fr *Frame) collectNames() {
-	fr.names = map[string][]ssa.Value{}
-	add := func(n string, v ssa.Value) {
-		for _, x := range fr.names[n] {
-			if x == v {
-				return
-			}
-		}
-		fr.names[n] = append(fr.names[n], v)
+	fr.names = map[string][]nameBinding{}
+	add := func(n string, b nameBinding) {
+		fr.names[n] = append(fr.names[n], b)
 	}
+	if len(fr.fn.Blocks) == 0 {
+		return
+	}
+	entry := fr.fn.Blocks[0]
 	for _, p := range fr.fn.Params {
-		add(p.Name(), p)
+		add(p.Name(), nameBinding{p, entry, -1, false})
 	}
 	for _, fv := range fr.fn.FreeVars {
-		add(fv.Name(), fv)
+		add(fv.Name(), nameBinding{fv, entry, -1, false})
 	}
 	for _, b := range fr.fn.Blocks {
-		for _, in := range b.Instrs {
+		for i, in := range b.Instrs {
 			switch x := in.(type) {
 			case *ssa.Phi:
 				if x.Comment != "" {
-					add(x.Comment, x)
+					add(x.Comment, nameBinding{x, b, i, true})
 				}
 			case *ssa.Alloc:
 				if x.Comment != "" {
-					add(x.Comment, x)
+					add(x.Comment, nameBinding{x, b, i, false})
 				}
 			case *ssa.DebugRef:
 				if id, ok := x.Expr.(*ast.Ident); ok && !x.IsAddr {
-					add(id.Name, x.X)
+					add(id.Name, nameBinding{x.X, b, i, false})
 				}
 			}
 		}
@@ -708,23 +733,15 @@ func (c *Ctx) constVal(k *ssa.Const) Val {
 }
 
 func constRat(v constant.Value) *big.Rat {
-	v = constant.ToFloat(v)
-	switch x := constant.Val(v).(type) {
-	case *big.Rat:
-		return x
-	case *big.Float:
-		r, _ := x.Rat(nil)
-		return r
-	case int64:
-		return new(big.Rat).SetInt64(x)
-	case *big.Int:
-		return new(big.Rat).SetInt(x)
+	// Typed float constants have been rounded to float64 by go/types. Under
+	// A-REAL a constant is read as the shortest decimal that rounds to it
+	// (0.001 is the real 1/1000, not 1152921504606847/2^60).
+	f, _ := constant.Float64Val(constant.ToFloat(v))
+	r, ok := new(big.Rat).SetString(strconv.FormatFloat(f, 'g', -1, 64))
+	if !ok {
+		r = new(big.Rat)
+		r.SetFloat64(f)
 	}
-	// float64 typed constants: take the exact float64 value's decimal literal when
-	// it came from a literal such as 0.001; go/constant keeps rationals for those.
-	f, _ := constant.Float64Val(v)
-	r := new(big.Rat)
-	r.SetFloat64(f)
 	return r
 }
 
@@ -933,7 +950,8 @@ func (fr *Frame) alloc(in *ssa.Alloc, st *State) Val {
 	case *types.Array:
 		es, ok := sortOfBasic(u.Elem())
 		if !ok {
-			panic(vcErr("array of %s", u.Elem()))
+			// array of non-scalars (e.g. the []interface{} of a fmt call): opaque
+			return ArrPtr{c.newID(st), "", u.Len()}
 		}
 		id := c.newID(st)
 		h := c.heap(st, "H."+string(es), heapSort(es))
@@ -1051,6 +1069,8 @@ func (fr *Frame) store(st *State, addr Val, v Val, pos token.Pos) {
 		fr.storeLoc(st, "F."+a.Key+"."+a.Field, a.Ref, a.Typ, v)
 	case CellPtr:
 		c.setCell(st, a.Key, v)
+	case OpaqueV:
+		// store into an opaque location (array of non-scalars): not modelled
 	default:
 		panic(vcErr("store through %T unsupported", addr))
 	}
@@ -1070,6 +1090,9 @@ func (fr *Frame) indexAddr(in *ssa.IndexAddr, st *State) Val {
 	case ArrPtr:
 		c.oblige(st, "bounds", "", nil, and(app(SBool, "<=", intLit(0), idx), app(SBool, "<", idx, intLit(b.N))), in.Pos(),
 			"index in range")
+		if b.Elem == "" {
+			return OpaqueV{"element of an array of non-scalars"}
+		}
 		return ElemPtr{b.ID, idx, b.Elem}
 	}
 	panic(vcErr("IndexAddr on %T", fr.get(in.X)))
@@ -1266,6 +1289,15 @@ func (fr *Frame) binop(in *ssa.BinOp, st *State) Val {
 }
 
 func (c *Ctx) arith(st *State, op token.Token, x, y T, pos token.Pos, check bool) T {
+	if len(c.nanSyms) > 0 && check && (c.isNaN(x) || c.isNaN(y)) {
+		// IEEE: every ordered comparison with NaN is false, != is true
+		switch op {
+		case token.EQL, token.LSS, token.LEQ, token.GTR, token.GEQ:
+			return tFalse
+		case token.NEQ:
+			return tTrue
+		}
+	}
 	switch op {
 	case token.ADD:
 		x, y = coerce2(x, y)
